@@ -621,7 +621,7 @@ func switchNud(p *parser, t *token) *token {
 	for {
 		if p.Token.Symbol == "case" {
 			c := p.Advance("case")
-			c.Append(p.Statement())
+			c.Append(p.Expression(0))
 			p.Advance(":")
 			c.Append(getCase(p))
 			cases.Append(c)
